@@ -115,7 +115,7 @@ PROPS = {
                     {"tool": "vprobe", "stream": "kernel", "profile": "par", "quick": 80, "thorough": 1000, "thorough_seeds": 2, "args": ["-profile", "par"]}],
         "trusted": KERNEL_TRUST,
         "assumptions": ["kernel semantics of seccomp(2)/prctl(2) as modelled in Model/Kernel.lean (validated against the running kernel by the histories of this run, on this kernel only): refusal order length → privilege → verifier; two faults (seccomp(2) → ENOSYS, prctl(PR_SET_NO_NEW_PRIVS) → EINVAL), both injected live by an outer filter",
-                        "flag bits 8/16/32 (user-notification listener) are outside the model: the modelled kernel knows TSYNC, LOG, SPEC_ALLOW (knownFlags = 7) and refuses the rest; no live history uses them"],
+                        "flag bits 16/32 (TSYNC_ESRCH, WAIT_KILLABLE_RECV) and the one-listener-per-chain rule (EBUSY) are outside the model: the modelled kernel knows TSYNC, LOG, SPEC_ALLOW, NEW_LISTENER (knownFlags = 15) and refuses the rest; no live history uses bits 4/5, and a listener is asked for at most once per process"],
     },
     "C10": {
         "lean": ["Seccomp.Proofs.C10"],
